@@ -644,9 +644,10 @@ func TestVerifEnumC01T2(t *testing.T) {
 	scen = append(scen, scenario{[]t2Fault{{t2CutAbrupt, true, 600}, {kind: t2PopDelay, idx: 5}}, 8 << 20, 8 << 20, false}, scenario{[]t2Fault{{t2CutAbrupt, false, 600}, {kind: t2PopDelay, idx: 5}}, 8 << 20, 8 << 20, false})
 	// an outage of more than two minutes (no proxy at all), then a working one: both ends must still hold the
 	// session (their keep-alive windows are 10 minutes) and the stream resumes
-	scen = append(scen, scenario{[]t2Fault{{t2CutAbrupt, true, 3}, {kind: t2PopDelay, idx: 125}}, 300000, 200000, false})
+	// (the cut comes at the 40th message: by then both ends have acknowledged traffic of the session)
+	scen = append(scen, scenario{[]t2Fault{{t2CutAbrupt, true, 40}, {kind: t2PopDelay, idx: 125}}, 300000, 200000, false})
 	if thorough {
-		scen = append(scen, scenario{[]t2Fault{{t2CutClean, false, 3}, {kind: t2PopDelay, idx: 125}}, 2000, 3000, false}, scenario{[]t2Fault{{t2CutAbrupt, true, 40}, {kind: t2PopDelay, idx: 70}}, 300000, 200000, false})
+		scen = append(scen, scenario{[]t2Fault{{t2CutClean, false, 40}, {kind: t2PopDelay, idx: 125}}, 300000, 200000, false}, scenario{[]t2Fault{{t2CutAbrupt, true, 3}, {kind: t2PopDelay, idx: 125}}, 300000, 200000, false}, scenario{[]t2Fault{{t2CutAbrupt, true, 40}, {kind: t2PopDelay, idx: 70}}, 300000, 200000, false})
 	}
 	scen = append(scen, scenario{[]t2Fault{{}}, 0, 200000, true}, scenario{[]t2Fault{{t2Blackhole, false, 3}}, 300000, 200000, false}, scenario{[]t2Fault{{t2Blackhole, true, 10}}, 300000, 200000, false})
 	pairs := []t2Fault{{t2CutClean, true, 3}, {t2CutAbrupt, false, 3}, {t2CutHalf, true, 3}, {kind: t2DeadOnUse}, {t2CutHalf, false, 1}}
